@@ -292,7 +292,51 @@ func (e *Explorer) give(items []workItem) {
 	e.cond.Broadcast()
 }
 
+// Assignment is a concrete valuation of a harness's inputs (replay / self-check).
+type Assignment struct {
+	Harness string            `json:"harness"`
+	Model   map[string]string `json:"model"`
+	Chooses map[string]int    `json:"chooses"`
+	Faults  []string          `json:"faults,omitempty"`
+	Tag     string            `json:"tag,omitempty"`
+}
+
+// ConcreteResult is what one concrete execution in the engine produced.
+type ConcreteResult struct {
+	Outcome string   `json:"outcome"`
+	Detail  string   `json:"detail,omitempty"`
+	Outs    []string `json:"outs"`
+	Fails   []string `json:"fails"`
+}
+
+// RunConcrete executes harness functions under concrete assignments (no solver decisions).
+func (e *Explorer) RunConcrete(find func(name string) *ssa.Function, list []Assignment) []ConcreteResult {
+	w := &Worker{exp: e, maxSteps: e.opt.MaxSteps, funcs: map[string]int{}}
+	s, err := NewSolver(e.opt.Solver, e.opt.TimeoutMs)
+	if err != nil {
+		return nil
+	}
+	defer s.Close()
+	w.solver = s
+	var out []ConcreteResult
+	for k := range list {
+		a := list[k]
+		fn := find(a.Harness)
+		if fn == nil {
+			out = append(out, ConcreteResult{Outcome: "error", Detail: "unknown harness " + a.Harness})
+			continue
+		}
+		w.item = workItem{harness: a.Harness, fn: fn}
+		w.decisions = nil
+		w.concrete = &a
+		r := w.runOnce()
+		out = append(out, r)
+	}
+	return out
+}
+
 type Worker struct {
+	concrete  *Assignment
 	exp       *Explorer
 	id        int
 	solver    *Solver
@@ -489,7 +533,7 @@ func (w *Worker) newInterpreter() *interpreter {
 }
 
 // runOnce executes the harness once along the current decision prefix.
-func (w *Worker) runOnce() {
+func (w *Worker) runOnce() (cres ConcreteResult) {
 	w.stats.Runs++
 	w.solver.Reset()
 	i := w.newInterpreter()
@@ -523,6 +567,10 @@ func (w *Worker) runOnce() {
 	}()
 	i.endRun()
 	e := w.exp
+	cres = ConcreteResult{Outcome: outcome, Detail: detail, Outs: i.outs, Fails: i.concFails}
+	if w.concrete != nil {
+		return cres
+	}
 	switch outcome {
 	case "completed":
 		w.stats.Completed++
@@ -585,6 +633,7 @@ func (w *Worker) runOnce() {
 			}
 		}
 	}
+	return cres
 }
 
 // Summary helpers
